@@ -700,7 +700,7 @@ func (vc *VC) havocEffects(s *State, eff *Effects) {
 		if vc.boxed[o] {
 			continue // contents live in the heap; handled by array effects
 		}
-		s.env[o] = vc.loaded(s, v.Type(), Fresh(v.Name(), sortOf(v.Type())), v.Name())
+		s.env[o] = vc.loadedDeep(s, v.Type(), Fresh(v.Name(), sortOf(v.Type())), v.Name())
 	}
 	if eff.all {
 		return
